@@ -353,15 +353,15 @@ impl Archive {
                 if het_size > 0 {
                     log::debug!("Loading HET table from offset 0x{het_pos:X}, size 0x{het_size:X}");
 
+                    // het_pos is a 64-bit header field
+                    let het_offset = self.archive_offset.checked_add(het_pos).ok_or_else(|| {
+                        Error::invalid_format("HET table position overflows file offset")
+                    })?;
+
                     // HET table key is based on table name
                     let key = hash_string("(hash table)", hash_type::FILE_KEY);
 
-                    match HetTable::read(
-                        &mut self.reader,
-                        self.archive_offset + het_pos,
-                        het_size,
-                        key,
-                    ) {
+                    match HetTable::read(&mut self.reader, het_offset, het_size, key) {
                         Ok(het) => {
                             let file_count = het.header.max_file_count;
                             log::info!("Loaded HET table with {file_count} max files");
@@ -403,10 +403,14 @@ impl Archive {
                 if bet_size > 0 {
                     log::debug!("Loading BET table from offset 0x{bet_pos:X}, size 0x{bet_size:X}");
 
+                    // bet_pos is a 64-bit header field
+                    let bet_offset = self.archive_offset.checked_add(bet_pos).ok_or_else(|| {
+                        Error::invalid_format("BET table position overflows file offset")
+                    })?;
+
                     // First, check if the BET offset actually points to a HET table
                     // This is a known issue in some MoP update archives
-                    self.reader
-                        .seek(SeekFrom::Start(self.archive_offset + bet_pos))?;
+                    self.reader.seek(SeekFrom::Start(bet_offset))?;
                     let mut sig_buf = [0u8; 4];
                     self.reader.read_exact(&mut sig_buf)?;
 
@@ -419,18 +423,12 @@ impl Archive {
                         );
                     } else {
                         // Reset position and proceed with normal BET loading
-                        self.reader
-                            .seek(SeekFrom::Start(self.archive_offset + bet_pos))?;
+                        self.reader.seek(SeekFrom::Start(bet_offset))?;
 
                         // BET table key is based on table name
                         let key = hash_string("(block table)", hash_type::FILE_KEY);
 
-                        match BetTable::read(
-                            &mut self.reader,
-                            self.archive_offset + bet_pos,
-                            bet_size,
-                            key,
-                        ) {
+                        match BetTable::read(&mut self.reader, bet_offset, bet_size, key) {
                             Ok(bet) => {
                                 let file_count = bet.header.file_count;
                                 log::info!("Loaded BET table with {file_count} files");
@@ -526,8 +524,9 @@ impl Archive {
                     (block_table_offset - hash_table_offset) as usize
                 } else {
                     // If block table comes before hash table, calculate differently
+                    // (the hash table position may lie beyond the end of the file)
                     let file_size = self.reader.get_ref().metadata()?.len();
-                    (file_size - hash_table_offset) as usize
+                    file_size.saturating_sub(hash_table_offset) as usize
                 };
 
                 if available_space < uncompressed_size {
@@ -670,7 +669,7 @@ impl Archive {
                 let file_size = self.reader.get_ref().metadata()?.len();
                 let next_section = if let Some(hi_block_pos) = self.header.hi_block_table_pos {
                     if hi_block_pos != 0 {
-                        self.archive_offset + hi_block_pos
+                        self.archive_offset.saturating_add(hi_block_pos)
                     } else {
                         file_size
                     }
@@ -752,20 +751,25 @@ impl Archive {
         if let Some(hi_block_pos) = self.header.hi_block_table_pos
             && hi_block_pos != 0
         {
-            let hi_block_offset = self.archive_offset + hi_block_pos;
-            let hi_block_end = hi_block_offset + (self.header.block_table_size as u64 * 8);
+            // hi_block_pos is a 64-bit header field: the sums below may not fit in u64
+            let hi_block_offset = self.archive_offset.checked_add(hi_block_pos);
+            let hi_block_end = hi_block_offset
+                .and_then(|start| start.checked_add(self.header.block_table_size as u64 * 8));
 
             let file_size = self.reader.get_ref().metadata()?.len();
-            if hi_block_end > file_size {
-                log::warn!(
-                    "Hi-block table extends beyond file (ends at 0x{hi_block_end:X}, file size 0x{file_size:X}). Skipping."
-                );
-            } else {
-                self.hi_block_table = Some(HiBlockTable::read(
-                    &mut self.reader,
-                    hi_block_offset,
-                    self.header.block_table_size,
-                )?);
+            match (hi_block_offset, hi_block_end) {
+                (Some(hi_block_offset), Some(hi_block_end)) if hi_block_end <= file_size => {
+                    self.hi_block_table = Some(HiBlockTable::read(
+                        &mut self.reader,
+                        hi_block_offset,
+                        self.header.block_table_size,
+                    )?);
+                }
+                _ => {
+                    log::warn!(
+                        "Hi-block table at 0x{hi_block_pos:X} extends beyond file (file size 0x{file_size:X}). Skipping."
+                    );
+                }
             }
         }
 
@@ -1214,11 +1218,18 @@ impl Archive {
                                     filename,
                                     candidate_index
                                 );
+                                // The BET file position can be up to 64 bits wide
+                                let file_pos = self
+                                    .archive_offset
+                                    .checked_add(bet_info.file_pos)
+                                    .ok_or_else(|| {
+                                    Error::invalid_format("BET file position overflows file offset")
+                                })?;
                                 return Ok(Some(FileInfo {
                                     filename: filename.to_string(),
                                     hash_index: 0, // Not applicable for HET/BET
                                     block_index: candidate_index as usize,
-                                    file_pos: self.archive_offset + bet_info.file_pos,
+                                    file_pos,
                                     compressed_size: bet_info.compressed_size,
                                     file_size: bet_info.file_size,
                                     flags: bet_info.flags,
@@ -2102,7 +2113,11 @@ impl Archive {
                 .ok_or_else(|| Error::invalid_format("Invalid file index"))?;
 
             // For HET/BET files, the file position is calculated differently
-            let file_pos = self.archive_offset + bet_info.file_pos;
+            // (the BET file position can be up to 64 bits wide)
+            let file_pos = self
+                .archive_offset
+                .checked_add(bet_info.file_pos)
+                .ok_or_else(|| Error::invalid_format("BET file position overflows file offset"))?;
 
             FileInfo {
                 filename: format!("file_{hash_index:08}.dat"),
@@ -2627,15 +2642,20 @@ impl Archive {
         let actual_size = if let Some(bet_pos) = self.header.bet_table_pos {
             if bet_pos > het_pos {
                 // BET table comes after HET
-                bet_pos - het_pos
+                Some(bet_pos - het_pos)
             } else {
                 // Calculate from hash table position
-                self.header.get_hash_table_pos() - het_pos
+                self.header.get_hash_table_pos().checked_sub(het_pos)
             }
         } else {
             // Calculate from hash table position
-            self.header.get_hash_table_pos() - het_pos
-        };
+            self.header.get_hash_table_pos().checked_sub(het_pos)
+        }
+        .ok_or_else(|| {
+            Error::invalid_format(format!(
+                "HET table position 0x{het_pos:X} lies behind the hash table"
+            ))
+        })?;
 
         log::debug!("HET table position: 0x{het_pos:X}, calculated size: {actual_size} bytes");
 
@@ -2648,7 +2668,15 @@ impl Archive {
         log::debug!("Determining BET table size from file structure");
 
         // Calculate the actual size based on what comes after BET table (usually hash table)
-        let actual_size = self.header.get_hash_table_pos() - bet_pos;
+        let actual_size = self
+            .header
+            .get_hash_table_pos()
+            .checked_sub(bet_pos)
+            .ok_or_else(|| {
+                Error::invalid_format(format!(
+                    "BET table position 0x{bet_pos:X} lies behind the hash table"
+                ))
+            })?;
 
         log::debug!("BET table position: 0x{bet_pos:X}, calculated size: {actual_size} bytes");
 
@@ -2778,14 +2806,25 @@ impl Archive {
         // Get total file size
         let file_size = self.reader.get_ref().metadata()?.len();
 
-        // Calculate expected archive end position
-        let archive_end = self.archive_offset + self.header.get_archive_size();
+        // Calculate expected archive end position (the 64-bit archive size is a header field)
+        let archive_end = self
+            .archive_offset
+            .checked_add(self.header.get_archive_size());
 
         // Check if there's enough space for a strong signature after the archive
-        if file_size < archive_end + STRONG_SIGNATURE_SIZE as u64 {
-            log::debug!("File too small for strong signature");
-            return Ok(SignatureStatus::None);
-        }
+        let archive_end = match archive_end {
+            Some(end)
+                if end
+                    .checked_add(STRONG_SIGNATURE_SIZE as u64)
+                    .is_some_and(|sig_end| sig_end <= file_size) =>
+            {
+                end
+            }
+            _ => {
+                log::debug!("File too small for strong signature");
+                return Ok(SignatureStatus::None);
+            }
+        };
 
         // Seek to where the strong signature should be
         let signature_pos = archive_end;
